@@ -17,6 +17,13 @@ cdef class A:
     def call_c(self):
         return self.meth()
 
+cdef class AD(A):
+    # static extension type whose instances own a dict: only tp_dictoffset != 0 sends it into the override check
+    cdef dict __dict__
+
+cdef class AE(AD):
+    pass
+
 cdef str c_call(A a):
     return a.meth()
 
@@ -30,6 +37,12 @@ class A:
         return "A"
     def call_c(self):
         return self.meth()
+
+class AD(A):
+    pass
+
+class AE(AD):
+    pass
 
 def cc(a):
     return a.meth()
@@ -50,7 +63,7 @@ def run_hist(spec):
     for k, b in enumerate(hier.split(";")):
         bases = tuple(classes[int(x)] for x in b.split(",") if x) or (A,)
         classes.append(type("C%d" % k, bases, {}))
-    objs = [classes[int(x)]() for x in insts.split()]
+    objs = [(AD() if x == "D" else AE() if x == "E" else classes[int(x)]()) for x in insts.split()]
     out = []
     for op in ops.split():
         p = op.split(":")
@@ -117,6 +130,11 @@ def gen_case(rng, nops):
     icls = [rng.randrange(n) for _ in range(ninst)]
     if rng.random() < 0.6:
         icls[0] = n - 1
+    # instances of the static dict-owning extension types AD / AE(AD): model classes n and n+1 (never mutated at class level)
+    if rng.random() < 0.35:
+        icls.append(n if rng.random() < 0.5 else n + 1)
+        ninst += 1
+    mros = mros + [[n], [n + 1, n]]
     ops = []
     has_i = set()
     for _ in range(nops):
@@ -126,7 +144,7 @@ def gen_case(rng, nops):
         elif r < 0.5:
             ops.append("P:%d" % rng.randrange(ninst))
         elif r < 0.75:
-            ops.append("C:%d:%d" % (rng.randrange(n), rng.choice([0, 0, 1, 2, 3])))
+            ops.append("C:%d:%d" % (rng.randrange(n), rng.choice([0, 0, 1, 2, 3])))     # Python classes only
         elif r < 0.93:
             # deleting an instance attribute that does not exist is not generated: on CPython 3.12 the failed
             # delattr changes what __Pyx_get_object_dict_version reads (lazily materialised instance dict), a spurious
@@ -145,6 +163,8 @@ def gen_case(rng, nops):
 
 
 CORPUS = [
+    # static extension type with __dict__ (AD) and its cdef subclass (AE): instance-level override must be honoured by C-level calls
+    ([[]], [[0], [1], [2, 1]], [1, 2, 0], ["X:0", "X:1", "I:0:4", "X:0", "X:1", "I:1:5", "X:1", "P:1", "I:0:0", "X:0", "X:2"]),
     # F14 witness: class B(A), class C(B); c = C(); C-level call; B.meth = f; C-level call
     ([[], [0]], [[0], [1, 0]], [1], ["X:0", "X:0", "C:0:5", "X:0", "P:0", "C:0:0", "X:0"]),
     # leaf-class and instance overrides: cache must be invalidated
@@ -240,7 +260,10 @@ def run(ctx):
         cases = [tuple(c) for c in CORPUS]
         for _ in range(ctx.n(60, 1500)):
             cases.append(gen_case(ctx.rng, ctx.rng.choice([20, 50, 120])))
-    hspecs = [";".join(",".join(map(str, b)) for b in bases) + "|" + " ".join(map(str, icls)) + "|" + " ".join(ops)
+    def itok(bases, c):
+        n = len(bases)
+        return "D" if c == n else "E" if c == n + 1 else str(c)
+    hspecs = [";".join(",".join(map(str, b)) for b in bases) + "|" + " ".join(itok(bases, c) for c in icls) + "|" + " ".join(ops)
               for bases, mros, icls, ops in cases]
     orac = run_isolated(ctx, tw, "c27twin", hspecs)
     for uv, so in zip(configs, sos):
